@@ -168,9 +168,14 @@ def run(argv, cwd, cfg=None, tz="UTC", nobody=False, extra_env=None, cpu=CPU_LIM
         wall_to = True
         # what the process was doing when its time ran out: "257 ..." = sleeping inside openat (a FIFO without a
         # writer), "running" = computing. Lets a check tell a blocked open from a slow machine.
+        # (read twice, a third of a second apart: only a process that sits in the very same call both times is blocked)
         try:
             with open("/proc/%d/syscall" % p.pid) as fh:
                 blocked = fh.read().strip()
+            time.sleep(0.3)
+            with open("/proc/%d/syscall" % p.pid) as fh:
+                if fh.read().strip() != blocked:
+                    blocked = ""
         except OSError:
             blocked = ""
         try:
